@@ -383,6 +383,38 @@ fn main() {
         "pairs (a,b) of structured big integers (length classes straddling inline/heap, schoolbook/Karatsuba/Toom-3, square shortcuts; patterns all-ones, 2^k±small, sparse, carry chains; derived operands b=a, a±1, k·a, unbalanced) run through + - * in every ownership/assign form, mixed UBig/IBig and primitive forms, sqr/cubic/pow; oracle = num-bigint through raw words plus algebraic identities. Non-trivial: at least one operand longer than one word (pow: exponent >= 2 and base != 0); distinct = distinct case digest.",
     );
     let big = if ck.thorough() { Prof::Giant } else { Prof::Huge };
+    // products and squares of block-structured operands whose lengths sit on the switch points of
+    // the multiplication algorithms and of their recursion (Karatsuba from 25 words, Toom-3 from
+    // 193, Toom-3 calling itself from 3·192 = 576)
+    ck.sub(
+        "mul_blocks",
+        (40_000, 800_000),
+        || {
+            let lens: Vec<usize> = vec![24, 25, 26, 48, 49, 50, 96, 99, 192, 193, 194, 195, 196, 198, 384, 385, 387, 576, 577, 578, 579, 582, 600, 609, 768, 1152];
+            (prop::sample::select(lens.clone()), prop::sample::select(lens), 0u8..10, 0u8..4, 0u8..4, any::<u64>(), any::<u64>()).prop_map(|(la, lb0, same, pa, pb, sa, sb)| {
+                let lb = if same < 7 { la } else { lb0 };
+                // mostly the block pattern, sometimes all ones / alternating / sparse
+                let pat = |p: u8| [12u8, 12, 2, 6][p as usize];
+                UPair { a: Nat(gen::expand(la, pat(pa), sa)), b: Nat(gen::expand(lb, pat(pb), sb)), rel: 0 }
+            })
+        },
+        |c: &UPair, _ctx: &Ctx| {
+            let mut out = Out::new();
+            let (a, b) = (c.a.ubig(), c.b.ubig());
+            let (na, nb) = (c.a.big(), c.b.big());
+            let (la, lb) = (c.a.trimmed_len(), c.b.trimmed_len());
+            out.nontrivial(true);
+            out.label(mul_algo(la, lb));
+            out.label(if la == lb { "blocks: equal lengths" } else { "blocks: different lengths" });
+            out.label(if la.min(lb) >= 576 { "blocks: Toom-3 recursion (>= 576 words)" } else if la.min(lb) >= 193 { "blocks: Toom-3" } else { "blocks: Karatsuba / schoolbook" });
+            let prod = &na * &nb;
+            cmp_u(&mut out, "UBig mul (blocks)", "ref.ref", &catch(|| &a * &b), Some(&prod));
+            cmp_u(&mut out, "UBig mul (blocks)", "commuted", &catch(|| &b * &a), Some(&prod));
+            let sq = &na * &na;
+            cmp_u(&mut out, "UBig sqr (blocks)", "sqr()", &catch(|| a.sqr()), Some(&sq));
+            out
+        },
+    );
     ck.sub("ubig_binops_small", (60_000, 1_500_000), || upair(Prof::Small), ubig_binops);
     ck.sub("ubig_binops_large", (6_000, 150_000), || upair(Prof::Large), ubig_binops);
     ck.sub("ubig_binops_huge", (400, 10_000), move || upair(big), ubig_binops);
